@@ -143,6 +143,22 @@ def main():
     except Exception as e:
         infra_error = traceback.format_exc()
 
+    # a broken correspondence is not by itself a violation: evaluate the property's oracle on the mismatching inputs first
+    if ctx.mismatches and hasattr(mod, 'oracle') and not infra_error:
+        seen_in = set()
+        for m in sorted(ctx.mismatches, key=lambda m: len(str(m.get('input')))):
+            inp = m.get('input')
+            if not isinstance(inp, str) or inp in seen_in:
+                continue
+            seen_in.add(inp)
+            if len(seen_in) > 300:
+                break
+            try:
+                mod.oracle(ctx, inp)
+            except TypeError:
+                break
+            except Exception as e:
+                ctx.notes.append('oracle on mismatching input raised %r' % (e,))
     # fixed findings are regression inputs: they suppress nothing and are reported again if they return
     if hasattr(mod, 'replay_known') and not infra_error:
         for k in load_known_findings():
